@@ -4,11 +4,15 @@ package c01
 import (
 	"encoding/json"
 	"fmt"
+	"sort"
 	"strings"
 
 	"verifengine/ex"
+	"verifengine/fixture"
 	"verifengine/gx"
 	"verifengine/oracle"
+	"verifengine/props/c10"
+	"verifengine/st"
 	"verifengine/vf"
 )
 
@@ -17,7 +21,7 @@ func init() {
 		ID: "C01", Level: "exploration",
 		Rule: "expression programs: (a) every single-operator expression (6 unary, *, 19 binary, conversions to 34 types, calls, index, slice, selector, assertion, composite literals, builtins, unsafe) over the full 78-atom alphabet in the uses `_ = e` and `x := e`; " +
 			"(b) every atom and every single-operator expression over the 18-atom alphabet in each of ~100 use contexts (typed var, assignment, op-assignment, return, send, if/for/switch/case/range, const, expression statement, defer/go, 2-value define, argument); " +
-			"(c) depth-2 expressions over a reduced alphabet; each is built through the canonical front-end operation sequence into a fresh package; oracle: no error reported => every written file parses and go/types reports nothing but unused vars/imports. " +
+			"(c) depth-2 expressions over a reduced alphabet; (d) ~2.4k statement/declaration-rule programs generated from templates over 9 types (redeclaration by := from tuples/comma-ok forms, no-new-variable, tuple assignment, return count/type, range assignment, misplaced break/continue/fallthrough/goto, duplicate cases, value-less calls used as values, ...); (e) the C10 body space; each is built through the canonical front-end operation sequence into a fresh package; oracle: no error reported => every written file parses and go/types reports nothing but unused vars/imports. " +
 			"non-trivial = accepted by the builder; distinct = distinct emitted text",
 		Assumptions: []string{"go/types 1.23.5 is the Go specification for the oracle", "the environment package (fixture) is type-checked by go/types itself"},
 		Run:         run,
@@ -65,6 +69,7 @@ func run(c *vf.Ctx) {
 	imp := ex.Importer(nil)
 	plan := ex.Plan{Thorough: c.Thorough()}
 	var idx int64
+	defer runStmts(c, imp, &idx)
 	plan.Each(func(stage string, e *ex.E, u *ex.Use) {
 		i := idx
 		idx++
@@ -108,12 +113,166 @@ func run(c *vf.Ctx) {
 	})
 }
 
+// ---------------------------------------------------------------------------------------
+// statement / declaration rule programs and the body space
+
+func stmtShape(f *st.Func) string {
+	var b strings.Builder
+	var walk func(ss []*st.S)
+	walk = func(ss []*st.S) {
+		b.WriteString("[")
+		for i, s := range ss {
+			if i > 0 {
+				b.WriteString(";")
+			}
+			b.WriteString(s.K)
+			for _, bb := range s.B {
+				walk(bb)
+			}
+			for _, cs := range s.Cases {
+				walk(cs.Body)
+			}
+		}
+		b.WriteString("]")
+	}
+	walk(f.Body)
+	return b.String()
+}
+
+// execFunc builds one IR function; accepted => emitted must type-check.
+func execFunc(imp *fixture.Importer, f *st.Func) (accepted bool, class, detail string, bad bool, text string) {
+	b := gx.New(imp, gx.Options{})
+	out := gx.Try(func() {
+		xb := ex.NewBuilder(b)
+		st.NewBuilder(xb).Func(f)
+	})
+	if !b.Accepted(out) {
+		return false, "", "", false, ""
+	}
+	texts, err := oracle.WriteAll(b.Pkg)
+	for _, t := range texts {
+		text += t
+	}
+	if err != nil {
+		return true, "write-failed", "accepted, but writing failed: " + err.Error(), true, text
+	}
+	c := oracle.Check(texts, imp, gx.PkgPath)
+	if c.OK() {
+		return true, "", "", false, text
+	}
+	first := ""
+	if len(c.Parse) > 0 {
+		first = "syntax: " + c.Parse[0]
+		return true, "syntax", "accepted, emitted text does not parse: " + first + "\n" + text, true, text
+	}
+	first = c.Errs[0]
+	return true, oracle.NormMsg(first), "builder accepted, go/types rejects the emitted package: " + c.ErrString() + "\nemitted:\n" + text, true, text
+}
+
+func runStmts(c *vf.Ctx, imp *fixture.Importer, idx *int64) {
+	ex.NewOwn(imp)
+	rp := rulePrograms()
+	var keys []string
+	for k := range rp {
+		keys = append(keys, k)
+	}
+	sort.Strings(keys)
+	for _, k := range keys {
+		i := *idx
+		*idx++
+		if !c.MineIdx(i) {
+			continue
+		}
+		fs, err := st.ParseFuncs(rp[k])
+		c.Eval(1)
+		c.Tally("stage:d:stmt-rules", 1)
+		if err != nil || len(fs) != 1 {
+			c.Tally("rules_not_in_ir", 1)
+			c.Note(fmt.Sprintf("rule program %s not convertible to IR: %v", k, err))
+			continue
+		}
+		acc, class, detail, bad, text := execFunc(imp, fs[0])
+		if acc {
+			c.Tally("accepted", 1)
+			c.Distinct(text)
+		} else {
+			c.Tally("rejected", 1)
+			c.Outcome("rejected")
+		}
+		kind := k
+		if j := strings.Index(k, "/"); j > 0 {
+			kind = k[:j]
+		}
+		if bad {
+			c.Outcome("bad:" + oracle.ErrCategory(class))
+			c.Violation("rule:"+k+"|stmt|"+class, "program "+k+":\n"+rp[k]+"\n"+detail, payload{k, "rule:" + kind, i, false})
+		} else if acc {
+			c.Outcome("accepted-ok")
+		}
+	}
+	c10.Bodies(c.Thorough(), func(family string, body []*st.S) {
+		i := *idx
+		*idx++
+		if !c.MineIdx(i) || c.Expired() {
+			return
+		}
+		if !c.Thorough() && family == "termination-w1d2" {
+			return // quick bound: the width-2/depth-1, shadow and label families
+		}
+		f := &st.Func{Name: "f", Results: []string{"int"}, Body: body}
+		acc, class, detail, bad, text := execFunc(imp, f)
+		c.Eval(1)
+		c.Tally("stage:e:bodies", 1)
+		if acc {
+			c.Tally("accepted", 1)
+			c.Distinct(text)
+		} else {
+			c.Outcome("rejected")
+		}
+		if bad {
+			c.Outcome("bad:" + oracle.ErrCategory(class))
+			c.Violation("body:"+stmtShape(f)+"|stmt|"+class, detail, payload{f.Render(), "body", i, false})
+		}
+	})
+}
+
 func replay(raw json.RawMessage) (string, bool) {
 	var p payload
 	if err := json.Unmarshal(raw, &p); err != nil {
 		return err.Error(), false
 	}
 	imp := ex.Importer(nil)
+	if strings.HasPrefix(p.Use, "rule:") {
+		ex.NewOwn(imp)
+		fs, err := st.ParseFuncs(rulePrograms()[p.Expr])
+		if err != nil || len(fs) != 1 {
+			return "rule program not convertible", false
+		}
+		acc, _, detail, bad, text := execFunc(imp, fs[0])
+		if !bad {
+			return fmt.Sprintf("program %s: accepted=%v; emitted text type-checks\n%s", p.Expr, acc, text), false
+		}
+		return detail, true
+	}
+	if p.Use == "body" {
+		ex.NewOwn(imp)
+		var res string
+		var bad, found bool
+		for _, th := range []bool{false, true} {
+			c10.Bodies(th, func(family string, body []*st.S) {
+				f := &st.Func{Name: "f", Results: []string{"int"}, Body: body}
+				if found || f.Render() != p.Expr {
+					return
+				}
+				found = true
+				_, _, res, bad, _ = execFunc(imp, f)
+			})
+			if found {
+				return res, bad
+			}
+		}
+		return "body not found", false
+	}
 	var found *ex.Run
 	var idx int64
 	for _, th := range []bool{false, true} {
